@@ -107,7 +107,13 @@ MapScripts ==
   { << BNewOp, BM("set", "clm", Val("int", "a", WOf(1), 0)), BM("set", "clm", Val("int", "a", WOf(2), 0)),
        BM("set", "clm", Val("str", "", "x", 0)), BM("set", "hdr", Val("str", "b", NONE, 0)),
        BM("get", "clm", Val("str", "a", NONE, 0)), BM("get", "clm", Val("int", "zz", W0, 0)), BM("get", "hdr", Val("bool", NONE, 0, 0)),
-       BM("set", "clm", [Val("json", "j", "{\"a\":", 0) EXCEPT !.jcls = "malformed"]), BM("del", "clm", Val("int", "a", W0, 0)) >> }
+       BM("set", "clm", [Val("json", "j", "{\"a\":", 0) EXCEPT !.jcls = "malformed"]), BM("del", "clm", Val("int", "a", W0, 0)) >>,
+    \* string values that are not UTF-8: on a fresh name, on an existing one without and with replace
+    << BNewOp, BM("set", "clm", Val("str", "s", "#hex:fffe", 0)), BM("set", "hdr", Val("str", "s", "#hex:c0af", 1)),
+       BM("set", "clm", Val("str", "a", "x", 0)), BM("set", "clm", Val("str", "a", "#hex:61ff62", 0)), BM("set", "clm", Val("str", "a", "#hex:61ff62", 1)),
+       BM("get", "clm", Val("str", "a", NONE, 0)), BM("set", "clm", Val("str", "a", "y", 0)) >>,
+    << BNewOp, BSetCbOp(<< [k |-> "set", which |-> "clm", v |-> Val("str", "s", "#hex:fffe", 1), map |-> 0],
+                           [k |-> "set", which |-> "hdr", v |-> Val("str", "typ", "#hex:fffe", 1), map |-> 0] >>), GenerateOp(0) >> }
 
 \* (families, not their union: see ISpecFam in Interp.tla)
 MCSpec == ISpecFam(<<VerifyScripts, PolicyScripts, BuilderScripts, JwkScripts, MapScripts>>)
